@@ -91,6 +91,8 @@ class Ctx:
         return False
 
     def floor(self, rule, found, floor, what):
+        if any(o.status == "violated" for o in self.obligs):
+            return  # a positive finding is reported as such; dependent instances may be missing
         if found < floor:
             raise AnalysisError(f"{rule}: only {found} instance(s) of '{what}' found, floor is {floor} - anchors moved, rule would pass vacuously")
 
